@@ -152,47 +152,70 @@ def run(seed, n_random, stats):
 def gen_description(rng):
     """returns (text, expected rows): transition lines of the grammar mixed with initial / terminate lines, entry /
     exit / flag lines, region separators, frame lines and empty lines; with or without a final line end"""
-    lines, rows = [], []
+    lines, rows, kinds = [], [], []
     for _ in range(rng.randint(1, 9)):
         k = rng.random()
         if k < 0.5:
             text, exp = gen_line(rng)
             lines.append(text)
             rows.append(exp)
+            kinds.append("row")
+            continue
         elif k < 0.62:
             lines.append(pad(rng) + "[*]" + pad(rng, 1, 3) + "-" * rng.randint(1, 4) + ">" + pad(rng, 1, 3) + ident(rng))
+            kinds.append("init")
+            continue
         elif k < 0.74:
             lines.append(pad(rng) + ident(rng) + pad(rng, 1, 3) + "-" * rng.randint(1, 4) + ">" + pad(rng, 1, 3) + "[*]" + pad(rng))
+            kinds.append("term")
+            continue
         elif k < 0.84:
             lines.append(ident(rng) + " : " + rng.choice(["entry", "exit", "flag"]) + " " + ident(rng))
         elif k < 0.9:
             lines.append(rng.choice(["--", "@startuml x", "state x{", "}", "@enduml"]))
         else:
             lines.append(pad(rng))
-    text = "\n".join(lines) + ("\n" if rng.random() < 0.6 else "")
-    return text, rows
+        kinds.append("other")
+    final_nl = rng.random() < 0.6
+    text = "\n".join(lines) + ("\n" if final_nl else "")
+    # what count_inits / count_terminates must answer; None where the library's own contract ends: an initial line
+    # that is the last line without a line end (substr(npos) throws: a compile error in constexpr use) and a terminate
+    # line that is the very first line of the text (descriptions start with @startuml)
+    counts = (None if (kinds[-1] == "init" and not final_nl) else kinds.count("init"),
+              None if kinds[0] == "term" else kinds.count("term"))
+    return text, rows, counts
 
 def run_stt(exe, seed, n, stats):
     rng = random.Random("stt/%d" % seed)
     cases = [gen_description(rng) for _ in range(n)]
-    inp = "\n".join(t.replace("\n", "\x1e") for t, _ in cases) + "\n"
+    inp = "\n".join(c[0].replace("\n", "\x1e") for c in cases) + "\n"
     impl = subprocess.run([exe, "stt"], input=inp, capture_output=True, text=True, timeout=120).stdout.split("\n")
     model = subprocess.run([corr.MODEL, "stt"], input=inp, capture_output=True, text=True, timeout=300).stdout.split("\n")
     mismatches, violations = [], []
-    for i, (text, rows) in enumerate(cases):
+    for i, (text, rows, counts) in enumerate(cases):
         a = impl[i] if i < len(impl) else None
         b = model[i] if i < len(model) else None
+        if a is not None and a.endswith("THROW"):      # the exception may come after the first fields were printed
+            a = "THROW"
         stats.evaluations += 1
         stats.traces += 1
         stats.dist[("description: transition lines", min(len(rows), 6))] += 1
-        if a != b:
+        if a != b and not (a == "THROW"):
             mismatches.append({"machine": "puml description", "cfg": "puml", "kind": "trace",
                                "detail": {"text": text, "impl": a, "model": b}, "md": None, "ops": [text]})
+        if a == "THROW" and counts[0] is None:
+            stats.discarded["description ends in an initial line without line end (library throws: compile error in constexpr use)"] += 1
+            continue
         if a is None or a == "THROW":
             violations.append({"machine": "puml description", "cfg": "puml", "md": None, "ops": [text],
-                               "why": "parse_stt throws on a description of the documented grammar"})
+                               "why": "parse_stt / count_inits / count_terminates throw on a description of the documented grammar"})
             continue
         f = a.split("\x1f")
+        if len(f) >= 40 and f[36] == "CI":
+            for nm, got_n, want in (("count_inits", f[37], counts[0]), ("count_terminates", f[39], counts[1])):
+                if want is not None and got_n != str(want):
+                    violations.append({"machine": "puml description", "cfg": "puml", "md": None, "ops": [text],
+                                       "why": "%s of %r is %s, the description has %d such lines" % (nm, text, got_n, want)})
         for t in range(6):
             got = f[6 * t + 1: 6 * t + 6]
             if t < len(rows):
